@@ -33,6 +33,54 @@ def set_index(idx) -> None:
     _LOCALS_CACHE.clear()
 
 
+def private_callees(f) -> set:
+    """Names of the private helpers (single leading underscore) a function calls on `self` / `cls` / its own class, or
+    as bare module-level functions."""
+    import ast as _ast
+
+    out = set()
+    for c in _ast.walk(f.node):
+        if not isinstance(c, _ast.Call):
+            continue
+        fn = c.func
+        name = None
+        if isinstance(fn, _ast.Attribute) and isinstance(fn.value, _ast.Name) and (fn.value.id in ("self", "cls") or fn.value.id[:1].isupper()):
+            name = fn.attr
+        elif isinstance(fn, _ast.Name):
+            name = fn.id
+        if name and name.startswith("_") and not name.startswith("__"):
+            out.add(name)
+    return out
+
+
+_KNOWN_HELPERS = None
+
+
+def new_helpers_of(function: str) -> list:
+    """Private helpers called by `function` in the analysed tree that it did not call in the pinned tree
+    (tables/known_helpers.json): logic the rules anchored in `function` may have been extracted into."""
+    global _KNOWN_HELPERS
+    if _INDEX is None or not function:
+        return []
+    if _KNOWN_HELPERS is None:
+        import json
+        import os
+
+        p = os.path.join(os.path.dirname(os.path.dirname(os.path.abspath(__file__))), "tables", "known_helpers.json")
+        try:
+            with open(p) as fh:
+                _KNOWN_HELPERS = json.load(fh)
+        except OSError:
+            _KNOWN_HELPERS = {}
+    f = getattr(_INDEX, "funcs", {}).get(function)
+    if f is None:
+        return []
+    known = set(_KNOWN_HELPERS.get(function, ()))
+    # only helpers that exist in the analysed tree and did not exist (under that name, called from here) before
+    defined = {g.node.name for g in getattr(_INDEX, "funcs", {}).values()}
+    return sorted(n for n in private_callees(f) if n not in known and n in defined)
+
+
 def locals_of(function: str):
     if _INDEX is None or not function:
         return frozenset()
@@ -119,15 +167,37 @@ class Report:
     def ok(self, rule: str, instance: str, where: str, construct: str = "", detail: str = "", function: str = "") -> None:
         self.obligations.append(Obligation(rule, instance, where, True, construct, detail, function))
 
-    def bad(self, rule: str, instance: str, where: str, construct: str, detail: str = "", function: str = "", path: Optional[List[str]] = None) -> None:
+    def bad(self, rule: str, instance: str, where: str, construct: str, detail: str = "", function: str = "", path: Optional[List[str]] = None, strict: bool = False) -> None:
+        # Extract-method: when the function a rule is anchored in now calls a private helper it did not call in the
+        # pinned tree, what the rule looks for may live in that helper, which the rule does not read. Unless the rule
+        # says it has followed helpers itself (strict=True), the verdict is `inconclusive`, never a violation — the
+        # benign direction for everything unresolved.
+        if not strict:
+            moved = new_helpers_of(function)
+            if moved:
+                self.obligations.append(Obligation(rule, instance, where, True, construct, f"not decided: {function.rsplit('.', 1)[-1]} now calls the helper(s) {moved}, which this rule does not read (the logic it looks for may have been extracted there)", function, inconclusive=True))
+                self.counters["undecided_after_extract_method"] = self.counters.get("undecided_after_extract_method", 0) + 1
+                return
         self.obligations.append(Obligation(rule, instance, where, False, construct, detail, function, path or []))
 
-    def check(self, cond: bool, rule: str, instance: str, where: str, construct: str = "", detail: str = "", function: str = "", path: Optional[List[str]] = None) -> bool:
+    def check(self, cond: bool, rule: str, instance: str, where: str, construct: str = "", detail: str = "", function: str = "", path: Optional[List[str]] = None, strict: bool = False) -> bool:
         if cond:
             self.ok(rule, instance, where, construct, detail, function)
         else:
-            self.bad(rule, instance, where, construct, detail, function, path)
+            self.bad(rule, instance, where, construct, detail, function, path, strict)
         return cond
+
+    def vanished(self, rule: str, what: str, function: str, where: str = "") -> None:
+        """An anchor the rule needs was not found in `function`. If the function now calls a private helper it did not
+        call in the pinned tree, the anchor may have been extracted there: the rule is recorded as inconclusive and the
+        caller skips it. Otherwise the analysis is broken (exit 2)."""
+        from .index import AnalysisError
+
+        moved = new_helpers_of(function)
+        if not moved:
+            raise AnalysisError(f"anchor vanished: {what}")
+        self.obligations.append(Obligation(rule, what, where or function, True, "anchor not found", f"not decided: {function.rsplit('.', 1)[-1]} now calls the helper(s) {moved}, which this rule does not read", function, inconclusive=True))
+        self.counters["undecided_after_extract_method"] = self.counters.get("undecided_after_extract_method", 0) + 1
 
     def inconclusive(self, rule: str, instance: str, where: str, construct: str = "", detail: str = "", function: str = "") -> None:
         self.obligations.append(Obligation(rule, instance, where, True, construct, detail, function, inconclusive=True))
@@ -142,10 +212,13 @@ class Report:
     def note_function(self, qualname: str) -> None:
         self.sets.setdefault("functions_analysed", set()).add(qualname)
 
-    def require_min(self, rule: str, counter: str, minimum: int) -> None:
+    def require_min(self, rule: str, counter: str, minimum: int, function: str = "") -> None:
         from .index import AnalysisError
 
         have = self.counters.get(counter, 0)
+        if have < minimum and function and new_helpers_of(function):
+            self.vanished(rule, f"{have} of the {minimum} confirmed instances of '{counter}' found", function)
+            return
         if have < minimum:
             raise AnalysisError(f"{rule}: matched {have} instances of '{counter}', fewer than the confirmed minimum {minimum} (vacuous rule)")
 
